@@ -802,3 +802,167 @@ Proof.
 Qed.
 
 End Timeouts.
+
+Section Exit.
+Variables period lag : Z.
+Hypothesis Hper : 0 <= period.
+Hypothesis Hlag : 0 <= lag.
+Notation tstepF := (tstep true period).
+Notation stepF := (step true period lag).
+Notation runF := (run true period lag).
+Ltac sg := cbn [cur cend start running mu now gs ths set_cur set_cend set_start set_running set_mu set_now unlock dur_since].
+
+(* ---------- the clock goroutine exits ---------- *)
+Lemma quiet_spec s : quiet s = true <-> forall j t, nth_error (ths s) j = Some t -> inflight t = false.
+Proof.
+  unfold quiet. rewrite forallb_forall. split.
+  - intros H j t Hj. apply nth_error_In in Hj. apply H in Hj. destruct (inflight t); auto; discriminate.
+  - intros H t Ht. apply In_nth_error in Ht. destruct Ht as [j Hj]. rewrite (H _ _ Hj). reflexivity.
+Qed.
+
+Definition qthr (H : Z) (G : gst) (t : thr) : Prop :=
+  match t with
+  | R0 last => last <= H
+  | R1 last => last <= H \/
+               (exists s0, start G = Some s0 /\ cur G = ticks (last - s0) /\ last <= H + period + lag)
+  | R2 last | R3 last _ | R4 last | R5 last | R6 last _ => last <= H
+  | R7 last | R8 last => last <= H + period + lag
+  | _ => True
+  end.
+
+Definition qinv (H C : Z) (s : st) : Prop :=
+  quiet s = true /\ cend (gs s) <= C /\
+  (forall s0, start (gs s) = Some s0 -> real_of s0 C <= H) /\
+  forall j t, nth_error (ths s) j = Some t -> qthr H (gs s) t.
+
+Lemma tstep_quiet j G t G' t' sp :
+  inflight t = false -> tstepF j G t = Some (G', t', sp) ->
+  inflight t' = false /\ sp = [] /\ start G' = start G /\ now G' = now G /\
+  (cur G' = cur G \/ exists last tr, t = R6 last tr) /\
+  (cend G' = cend G \/ (t = S1 /\ cend G' = 0)).
+Proof.
+  intros Hq Hst.
+  destruct t; cbn [inflight] in Hq; try discriminate; cbn [tstep] in Hst; unfold lock in Hst;
+    try match type of Hst with context [match mu ?g with _ => _ end] => destruct (mu g) eqn:Emu end;
+    repeat match type of Hst with
+           | context [match ?c with _ => _ end] => destruct c eqn:?
+           end; try discriminate; inversion Hst; subst; clear Hst; sg; repeat split; eauto.
+Qed.
+
+Lemma qinv_step H C s a s' :
+  Inv period lag s -> qinv H C s -> 0 <= C -> no_call s a = true -> stepF s a = Some s' ->
+  qinv H C s'.
+Proof.
+  intros HI (Hq & Hc & Hh & Ht) HC Hnc Hst. rewrite quiet_spec in Hq.
+  destruct a; cbn [step no_call] in *; try discriminate.
+  - destruct (_ && _); [|discriminate]. inversion Hst; subst; clear Hst.
+    split; [rewrite quiet_spec; exact Hq|]. split; [exact Hc|]. split; [exact Hh|]. sg.
+    intros j t Hj. specialize (Ht _ _ Hj). destruct t; exact Ht.
+  - inversion Hst; subst; clear Hst.
+    assert (Hnew : forall j t, nth_error (ths s ++ [S0]) j = Some t -> nth_error (ths s) j = Some t \/ t = S0).
+    { intros j t Hj. destruct (Nat.lt_ge_cases j (length (ths s))) as [Hlt|Hge].
+      - rewrite nth_error_app1 in Hj by exact Hlt. auto.
+      - rewrite nth_error_app2 in Hj by exact Hge. destruct (j - length (ths s))%nat as [|[|k]]; try discriminate Hj.
+        inversion Hj. auto. }
+    split; [|split; [exact Hc|split; [exact Hh|]]]; sg.
+    + rewrite quiet_spec. sg. intros j t Hj. destruct (Hnew _ _ Hj) as [Hj'| ->]; eauto.
+    + intros j t Hj. destruct (Hnew _ _ Hj) as [Hj'| ->]; [eauto|exact I].
+  - destruct (nth_error (ths s) i) as [t|] eqn:Hi; [|discriminate].
+    destruct (tstepF i (gs s) t) as [[[G' t'] sp]|] eqn:Hts; [|discriminate].
+    inversion Hst; subst; clear Hst.
+    destruct (tstep_quiet _ _ _ _ _ _ (Hq _ _ Hi) Hts) as (Hq' & -> & Hs & Hn & Hcur & Hce).
+    destruct (i_thr _ _ _ HI _ _ Hi) as [Hhi Hpi].
+    split; [|split; [|split]]; sg.
+    + rewrite quiet_spec. sg. intros j x Hj.
+      destruct (nth_new _ _ _ _ _ _ _ Hi Hj) as [(-> & ->)|[(Hne & Hj')|(k & -> & Hk)]]; eauto.
+      destruct k; discriminate Hk.
+    + destruct Hce as [->|(_ & ->)]; lia.
+    + rewrite Hs. exact Hh.
+    + intros j x Hj.
+      destruct (nth_new _ _ _ _ _ _ _ Hi Hj) as [(-> & ->)|[(Hne & Hj')|(k & -> & Hk)]].
+      * (* the stepping goroutine *)
+        specialize (Ht _ _ Hi).
+        destruct t; cbn [tstep] in Hts; unfold lock in Hts;
+          try match type of Hts with context [match mu ?g with _ => _ end] => destruct (mu g) eqn:Emu end;
+          repeat match type of Hts with
+                 | context [match ?c with _ => _ end] => destruct c eqn:?
+                 end; try discriminate; inversion Hts; subst; clear Hts; cbn [qthr pinv] in *; sg; auto; try lia.
+        -- (* R1: test true, continue *)
+           destruct Ht as [Ht|(s0 & Hs0 & Hcu & Hl)]; [exact Ht|].
+           specialize (Hh _ Hs0). unfold real_of in Hh. tk.
+        -- (* R1: test false, exit *)
+           destruct Ht as [Ht|(s0 & Hs0 & Hcu & Hl)]; lia.
+        -- (* R6: write *)
+           destruct Hpi as ((Hb & _ & _) & Htr & s0 & Hs0 & _). right. exists s0. rewrite Hs0. sg.
+           repeat split; auto. lia.
+      * (* another goroutine: only R1 looks at shared state, and it holds the lock *)
+        specialize (Ht _ _ Hj'). destruct x; cbn [qthr] in *; auto.
+        destruct Ht as [Ht|(s0 & Hs0 & Hcu & Hl)]; [left; exact Ht|].
+        destruct Hcur as [Hcur|(l0 & tr & ->)].
+        -- right. exists s0. rewrite Hs, Hcur. auto.
+        -- exfalso. destruct (i_thr _ _ _ HI _ _ Hj') as [Hhj _]. cbn [holds] in Hhi, Hhj.
+           assert (mu (gs s) = Some i) by (apply Hhi; reflexivity).
+           assert (mu (gs s) = Some j) by (apply Hhj; reflexivity). congruence.
+      * destruct k; discriminate Hk.
+  - destruct (nth_error (ths s) i) as [t|] eqn:Hi; [|discriminate].
+    destruct t; try discriminate. inversion Hst; subst; clear Hst.
+    split; [|split; [exact Hc|split; [exact Hh|]]]; sg.
+    + rewrite quiet_spec. sg. intros j x Hj.
+      destruct (Nat.eq_dec i j) as [->|Hne].
+      * rewrite (nth_error_upd_eq _ _ _ _ Hi) in Hj. inversion Hj. reflexivity.
+      * rewrite nth_error_upd_neq in Hj by exact Hne. eauto.
+    + intros j x Hj. destruct (Nat.eq_dec i j) as [->|Hne].
+      * rewrite (nth_error_upd_eq _ _ _ _ Hi) in Hj. inversion Hj. exact I.
+      * rewrite nth_error_upd_neq in Hj by exact Hne. eauto.
+Qed.
+
+Lemma qinv_run H C s l s' :
+  Inv period lag s -> qinv H C s -> 0 <= C ->
+  run_with true period lag no_call s l = Some s' -> qinv H C s'.
+Proof.
+  revert s. induction l as [|a l IH]; intros s HI Hq HC Hr; cbn [run_with] in Hr.
+  - inversion Hr; subst; exact Hq.
+  - destruct (no_call s a) eqn:En; [|discriminate].
+    destruct (stepF s a) as [s1|] eqn:E; [|discriminate].
+    eapply IH; [| |exact HC|exact Hr]; [eapply inv_step; eauto | eapply qinv_step; eauto].
+Qed.
+
+Lemma qinv_start s :
+  Inv period lag s -> quiet s = true -> qinv (horizon s) (Z.max 0 (cend (gs s))) s.
+Proof.
+  intros HI Hq. unfold horizon. split; [exact Hq|]. split; [lia|]. split.
+  - intros s0 Hs0. rewrite Hs0. lia.
+  - intros j t Hj. destruct (i_thr _ _ _ HI _ _ Hj) as [_ Hp].
+    assert (Hn : now (gs s) <= match start (gs s) with
+                              | Some s0 => Z.max (now (gs s)) (real_of s0 (Z.max 0 (cend (gs s))))
+                              | None => now (gs s) end) by (destruct (start (gs s)); lia).
+    destruct t; cbn [qthr pinv] in *; auto; unfold cinv in *; try lia.
+Qed.
+
+Lemma qinv_gone H C s :
+  Inv period lag s -> qinv H C s -> H + exit_slack period lag < now (gs s) ->
+  running (gs s) = false /\ forall j t, nth_error (ths s) j = Some t -> clock_alive t = false.
+Proof.
+  intros HI (_ & _ & _ & Ht) Hn. unfold exit_slack in Hn.
+  assert (Hall : forall j t, nth_error (ths s) j = Some t -> clock_alive t = false).
+  { intros j t Hj. specialize (Ht _ _ Hj). destruct (i_thr _ _ _ HI _ _ Hj) as [_ Hp].
+    destruct t; cbn [clock_alive qthr pinv] in *; auto; exfalso; unfold cinv in *; try lia.
+    destruct Ht as [Ht|(s0 & _ & _ & Ht)]; lia. }
+  split; [|exact Hall].
+  destruct (running (gs s)) eqn:Er; auto.
+  destruct (i_run _ _ _ HI Er) as (j & t & Hj & Ha). specialize (Hall _ _ Hj).
+  destruct t; cbn in *; discriminate.
+Qed.
+
+Lemma clock_exits l1 s1 l2 s2 :
+  runF init l1 = Some s1 -> quiet s1 = true ->
+  run_with true period lag no_call s1 l2 = Some s2 ->
+  horizon s1 + exit_slack period lag < now (gs s2) ->
+  running (gs s2) = false /\ forall j t, nth_error (ths s2) j = Some t -> clock_alive t = false.
+Proof.
+  intros H1 Hq H2 Hn. apply reach_inv in H1; auto.
+  eapply qinv_gone; [eapply run_with_inv; eauto| |exact Hn].
+  eapply qinv_run; [exact H1|apply qinv_start; auto|lia|exact H2].
+Qed.
+
+End Exit.
